@@ -2,12 +2,12 @@
 C03 — A document queried at a commit shows exactly the state of that commit.
 `versionedVals` mirrors the repaired versioned fetcher (DefraModel/Crdt/Versioned.lean).
 Proved for every stored DAG and every commit: the read applies each block AT MOST once (so counters are sums
-with one term per block, registers are (height, bytes)-maxima, deletes are sticky) and does not depend on the
-order in which the queued commits are replayed.  That the replay reaches EVERY ancestor (at least once), i.e.
-`versionedVals = canon (closure)`, is compared by execution on every read of every generated history
-(`SPEC-DIFFERS` marker of `drv crdt`) — not yet a theorem (`versioned_eq_canon_partial`).
+with one term per block, registers are (height, bytes)-maxima, deletes are sticky), does not depend on the
+order in which the queued commits are replayed, and reaches EVERY stored ancestor of the requested commit and
+every block an ancestor links (`read_at_commit_replays_every_ancestor_once`): exactly once each.
 -/
 import DefraModel.Proofs.CrdtVersioned
+import DefraModel.Proofs.CrdtVersionedComplete
 namespace Defra.Props.C03
 open Defra Defra.Crdt
 
@@ -15,6 +15,15 @@ open Defra Defra.Crdt
 theorem versioned_eq_canon_partial (bs : Blocks) (c : Nat) :
     ∃ (ids : List Nat), ids.Nodup ∧ versionedVals bs c = (ids.filterMap bs.get?).foldl applyDelta {} :=
   versionedVals_is_fold_once bs c
+
+/-- **Each ancestor exactly once.** The read at commit `c` is the fold of the merge function over a duplicate-free
+    list of blocks that contains `c`, every stored commit reachable from `c` through parent links, and every block
+    such a commit links (its field blocks) — for every block store, without any well-formedness assumption. -/
+theorem read_at_commit_replays_every_ancestor_once (bs : Blocks) (c : Nat) :
+    ∃ (ids : List Nat), ids.Nodup ∧
+      versionedVals bs c = (ids.filterMap bs.get?).foldl applyDelta {} ∧
+      (∀ (n x : Nat) (b : Block), Path bs c x n → bs.get? x = some b → x ∈ ids ∧ ∀ l ∈ b.links, l ∈ ids) :=
+  versionedVals_exact bs c
 
 /-- hence a counter read at a commit is the sum of the replayed increments, one term per block -/
 theorem counter_at_commit (bs : Blocks) (c : Nat) (f : String) :
